@@ -631,6 +631,76 @@ Definition run_fresh (r : recipe) (k : nat) : result st :=
 
 Definition rows_of (s : st) : list orow := rev (out s).
 
+(* ------------------------------------------------------------------ continuation
+   Globals.__getstate__ / __setstate__, ObjectRow.__getstate__, IdManager.__setstate__,
+   Interpreter(continuing=True).                                                          *)
+
+Record cont := mkCont {
+  k_ids : list (string * Z);
+  k_p_nicks : list (string * cell);
+  k_p_tables : list (string * cell);
+  k_deps : list (string * string * string)
+}.
+
+(* ObjectRow.__getstate__: nested ObjectRows are dropped; a NicknameSlot value cannot be
+   represented by the YAML dumper (RepresenterError). *)
+Fixpoint saved_fields (fs : list (string * value)) : result (list (string * value)) :=
+  match fs with
+  | [] => Ok []
+  | (n, v) :: r =>
+    do rest <- saved_fields r;
+    match v with
+    | VRow _ => Ok rest
+    | VSlot _ => Err (Internal "RepresenterError")
+    | _ => Ok ((n, v) :: rest)
+    end
+  end.
+
+Fixpoint save_rows (h : list cell) (m : list (string * nat)) : result (list (string * cell)) :=
+  match m with
+  | [] => Ok []
+  | (n, hd) :: r =>
+    match nth_error h hd with
+    | None => Err (Internal "dangling-handle")
+    | Some c =>
+      do fs <- saved_fields (c_fields c);
+      do rest <- save_rows h r;
+      Ok ((n, mkCell (c_table c) (c_id c) 0 fs) :: rest)
+    end
+  end.
+
+Definition save (s : st) : result cont :=
+  do pn <- save_rows (heap s) (p_nicks s);
+  do pt <- save_rows (heap s) (p_tables s);
+  Ok (mkCont (ids s) pn pt (deps s)).
+
+(* the loaded rows become fresh heap cells: nickname rows first, then table rows *)
+Definition load (e : env) (c : cont) : st :=
+  let hn := map snd (k_p_nicks c) in
+  let ht := map snd (k_p_tables c) in
+  let idx_n := combine (map fst (k_p_nicks c)) (seq 0 (length hn)) in
+  let idx_t := combine (map fst (k_p_tables c)) (seq (length hn) (length ht)) in
+  mkSt (k_ids c) (fresh_slots e) [] [] idx_n idx_t (hn ++ ht) [mkFrame [] None] (k_deps c) [].
+
+(* one run of k iterations, fresh or continued; returns the final state *)
+Definition run_one (r : recipe) (k : nat) (c : option cont) : result st :=
+  match c with
+  | None => run_fresh r k
+  | Some c0 => iterations k (env_of r) (r_stmts r) true (load (env_of r) c0)
+  end.
+
+(* a chain of runs linked by continuation files; the rows of each run *)
+Fixpoint run_history (r : recipe) (ks : list nat) (c : option cont) : result (list (list orow)) :=
+  match ks with
+  | [] => Ok []
+  | k :: rest =>
+    do s <- run_one r k c;
+    match rest with
+    | [] => Ok [rows_of s]
+    | _ => do c1 <- save s; do tl <- run_history r rest (Some c1); Ok (rows_of s :: tl)
+    end
+  end.
+
 (* ------------------------------------------------------------------ correspondence cases *)
 
 Definition ovalue_eqb (a b : ovalue) : bool :=
@@ -661,7 +731,8 @@ Definition project_row (p : proj) (r : orow) : orow :=
 
 Inductive case :=
 | CRun (r : recipe) (k : nat) (expected : result (list orow))
-| CProj (p : proj) (r : recipe) (k : nat) (expected : result (list orow)).
+| CProj (p : proj) (r : recipe) (k : nat) (expected : result (list orow))
+| CHist (p : proj) (r : recipe) (ks : list nat) (expected : result (list (list orow))).
 
 Definition run_rows (r : recipe) (k : nat) : result (list orow) :=
   do s <- run_fresh r k; Ok (rows_of s).
@@ -682,7 +753,15 @@ Definition check_case (c : case) : bool :=
     is_unsupported m ||
     result_eqb (list_eqb orow_eqb) (map_result (map (project_row p)) m)
                (map_result (map (project_row p)) expected)
+  | CHist p r ks expected =>
+    let m := run_history r ks None in
+    is_unsupported m ||
+    result_eqb (list_eqb (list_eqb orow_eqb)) (map_result (map (map (project_row p))) m)
+               (map_result (map (map (project_row p))) expected)
   end.
 
 Definition case_unsupported (c : case) : bool :=
-  match c with CRun r k _ | CProj _ r k _ => is_unsupported (run_rows r k) end.
+  match c with
+  | CRun r k _ | CProj _ r k _ => is_unsupported (run_rows r k)
+  | CHist _ r ks _ => is_unsupported (run_history r ks None)
+  end.
